@@ -108,6 +108,77 @@ def cuts(stream, ways):
         yield [stream[pts[i]:pts[i + 1]] for i in range(len(pts) - 1)]
 
 
+def node_level(ck, tier):
+    """the same statement on the node's real read path (LocalPeer socket reads -> handle_receive_data -> receiver):
+    every frame of a connection's stream is dispatched exactly once, in order, whatever the reads return, until the
+    connection is closed; a frame whose handler fails closes the connection instead of being dispatched again"""
+    import chaingen
+    import nodeharness
+    import simnet
+    from skepticoin.networking import remote_peer as RP
+    from skepticoin.networking import messages as M
+    rng = ck.rng
+    keys = chaingen.Keys()
+    with chaingen.Env(period=50) as env:
+        tg = chaingen.TreeGen(env, keys, rng)
+        n = tg.extend(tg.genesis, txs=[], fees=0)
+        main = list(tg.nodes)
+        log = []
+        orig = RP.MessageReceiver.handle_message_data
+
+        def logged(self, data, _o=orig):
+            log.append((id(self), bytes(data)))
+            return _o(self, data)
+        RP.MessageReceiver.handle_message_data = logged
+        try:
+            with simnet.Net(seed=rng.getrandbits(30), t0=n.view.time + 100) as net:
+                sn = nodeharness.SingleNode(net, chaingen.impl_state_from(main), [m.block for m in main[1:]], npeers=1)
+                hello = M.MessageHeader(0, 1, 0, 1).serialize() + sn.hello().serialize()
+                getpeers = [M.MessageHeader(0, 10 + i, 0, 1).serialize() + M.GetPeersMessage().serialize() for i in range(1300)]
+                unsupported = M.MessageHeader(0, 5, 0, 1).serialize() + M.GetDataMessage(M.DATA_TRANSACTION, b'\x07' * 32).serialize()
+                streams = [('1300-small-frames-in-one-write', [hello] + getpeers, None, None),
+                           ('unsupported-request-then-more/one-write', [hello, unsupported] + getpeers[:3], 2, None),
+                           ('unsupported-request-then-more/7-byte-writes', [hello, unsupported] + getpeers[:3], 2, 7),
+                           ('unsupported-request-then-more/1-byte-writes', [hello, unsupported] + getpeers[:3], 2, 1)]
+                for si, (name, payloads, closes_after, chunk) in enumerate(streams):
+                    atk = simnet.RawPeer(net, host='10.8.0.%d' % (si + 1)).connect(sn.node)
+                    sn.node.step()
+                    sn.pump()
+                    del log[:]
+                    data = b''.join(frame(p_) for p_ in payloads)
+                    pos = 0
+                    while pos < len(data):
+                        k = len(data) if chunk is None else chunk
+                        try:
+                            atk.send(data[pos:pos + k])
+                        except OSError:
+                            break
+                        pos += k
+                        sn.pump()
+                    sn.pump()
+                    got = [d for (_, d) in log]
+                    want = payloads if closes_after is None else payloads[:closes_after]
+                    still_open = not (atk.sock.remote_closed or atk.sock.closed)
+                    ck.case(('node', name), kind='node-read-path/' + name.split('/')[0],
+                            sample={'stream': name, 'frames_sent': len(payloads), 'dispatched': len(got), 'connection_open': still_open})
+                    rp = {'node_level': True, 'stream': name, 'frames': len(payloads), 'dispatched': len(got)}
+                    if sn.node.escaped:
+                        ck.violation('event-loop-exception', 'an exception escaped the read path: %s' % sn.node.escaped[0][1], rp)
+                        break
+                    if got != want:
+                        dup = len(got) != len(set(got)) and len(set(got)) == len(set(want))
+                        ck.violation('frames-not-dispatched-exactly-once', 'node read path, stream "%s": %d frames were sent, the '
+                                     'reference grammar delivers %d before the connection ends, the node dispatched %d%s'
+                                     % (name, len(payloads), len(want), len(got), ' (some more than once)' if dup else ''), rp)
+                    if closes_after is not None and still_open:
+                        ck.violation('failed-frame-keeps-connection', 'stream "%s": the handler of a frame failed but the '
+                                     'connection stays open with that frame still buffered' % name, rp)
+                    atk.close()
+                    sn.pump()
+        finally:
+            RP.MessageReceiver.handle_message_data = orig
+
+
 def run(tier, seed):
     ck = common.Check('C11', tier, seed)
     ck.rule = ('streams of 1-3 frames (payload 0..10 bytes; single corruptions: wrong magic bit, over-limit length '
@@ -194,6 +265,11 @@ def run(tier, seed):
                             {'max': maxsize, 'chunks': [c.hex() for c in chunks], 'impl': repr((frames, err, state))[:300],
                              'model': repr(m)[:300]})
         ck.extra['traces_validated_against_impl'] = len(cases)
+    try:
+        node_level(ck, tier)
+    except Exception:
+        import traceback
+        ck.disagree('node-level read path scenario crashed: %s' % traceback.format_exc()[-500:], {})
     return ck.finish()
 
 
